@@ -321,7 +321,7 @@ class NamespaceNode(XPathNode):
     @property
     def path(self) -> str:
         if self.parent is None:
-            return '/namespace::{name_path}'
+            return f'/namespace::{self.name_path}'
         elif isinstance(self.parent, ElementNode):
             return f"{self.parent.path}/namespace::{self.name_path}"
         return f"/namespace::{self.name_path}"
